@@ -4,6 +4,7 @@ package mc
 
 import (
 	"encoding/json"
+	"runtime"
 	"fmt"
 	"hash/fnv"
 	"os"
@@ -190,8 +191,11 @@ func runOne[S any](c *Ctx, s S, run func(c *Ctx, s S)) {
 	go func() {
 		select {
 		case <-done:
-		case <-time.After(5 * time.Minute):
-			fmt.Fprintf(os.Stderr, "WATCHDOG: case did not finish within 5 minutes: %s\n", raw)
+		case <-time.After(90 * time.Second):
+			buf := make([]byte, 1<<20)
+			n := runtime.Stack(buf, true)
+			os.WriteFile(filepath.Join(VerifDir, ".work", fmt.Sprintf("watchdog-%d.txt", os.Getpid())), buf[:n], 0o644)
+			fmt.Fprintf(os.Stderr, "WATCHDOG: case did not finish within 90 s (stacks in .work/watchdog-%d.txt): %s\n", os.Getpid(), raw)
 			os.Exit(3)
 		}
 	}()
@@ -217,7 +221,7 @@ func runOne[S any](c *Ctx, s S, run func(c *Ctx, s S)) {
 			run(sc, s)
 			for _, k := range newSigs {
 				if _, ok := sc.Viol[k]; !ok {
-					c.Notes = append(c.Notes, fmt.Sprintf("NONDETERMINISTIC: signature %q not reproduced on re-run %d of case %s", k, r+1, raw))
+					c.Notes = append(c.Notes, fmt.Sprintf("NONDETERMINISTIC: signature %q not reproduced on re-run %d of case %s (first run said: %s)", k, r+1, raw, c.Viol[k].What))
 				}
 			}
 		}
@@ -433,8 +437,8 @@ func drive(ck *Check, tier string, seed int64) int {
 			err := cmd.Run()
 			if err != nil {
 				st := stderr.String()
-				if len(st) > 4000 {
-					st = st[len(st)-4000:]
+				if len(st) > 30000 {
+					st = st[len(st)-30000:]
 				}
 				errs[i] = fmt.Sprintf("shard %d: %v\n%s", i, err, st)
 				return
